@@ -29,10 +29,11 @@ OSpec  == OInit /\ [][ONext0]_ovars
 InRange    == \A i \in 1..Len(steps) : steps[i].r < steps[i].c
 TU == UniformTab(MCProgs)
 TI == IdcTab(MCProgs)
-TK == KTab(MCProgs)
+TP == PmTab(MCProgs)
+TPA == PmAnyTab(MCProgs)
 TL == LeafTab(MCProgs)
 ExactCover == ExactCoverRun(run, TU)
-LeafReach  == LeafReachRun(run, TI, TK, TL)
+LeafReach  == LeafReachRun(run, TI, TP, TPA, TL)
 (* the attempt followed its program: the consulted choice points are those of MCProgs[p] *)
 FollowsProgram == \A i \in 1..Len(steps) :
     LET path == [j \in 1..(i - 1) |-> steps[j].r] IN
